@@ -29,7 +29,9 @@ pub fn classify(clause: &str, detail: &str, _trace: &[String]) -> Option<&'stati
             }
         }
         "C06/left-without-path" => {
-            if detail.contains("[last lookup failed: next maintenance is scheduled by the back-off") {
+            if detail.contains("[valid paths of the latest lookup were not kept]") {
+                Some("C06/left-without-path/valid-paths-of-latest-lookup-not-kept")
+            } else if detail.contains("[last lookup failed: next maintenance is scheduled by the back-off") {
                 Some("C06/left-without-path/active-path-expires-during-back-off")
             } else {
                 None
